@@ -8,7 +8,9 @@ from props.common import boot_ops, brokers, fp, pm
 SLICE = "all decoders (Codecs/Responses/Snappy), Net framing, ClientState.update_metadata, Consumer/Producer layers under hostile replies"
 RULE = ("one hostile reply per case, for every public operation (client calls, consumer creation/poll/commit, producer send), in debug and "
         "release builds: a 16/32-bit field at a byte position replaced by one of {-1,0,1,len-1,len,len+1,2^15-1,2^31-1,-2^31}; a bit flip; "
-        "truncation at a byte; random bytes; frame size negative / huge / off by one; hostile snappy and gzip payloads; well-formed replies "
+        "truncation at a byte; random bytes; frame size negative / huge / off by one; hostile snappy and gzip payloads, compressed sets nested "
+        "2..9 and 1000 / 2000 levels deep (operations run on a 2 MiB thread stack); a rejected reply followed by group calls on a client with "
+        "a single pooled connection; well-formed replies "
         "inconsistent with the request (unrequested topics/partitions, non-contiguous ids, empty answers). quick: positions sampled; thorough: "
         "every position of the first 160 reply bytes. non-trivial = the mutated reply differs from the honest one and was consumed by the call")
 ASSUMPTIONS = ["stack exhaustion and allocator aborts show as process abort / watchdog in the harness; the model covers allocation REQUESTS and panic sites of kafka-rust's own code"]
@@ -271,6 +273,27 @@ def gen(rng, tier):
                                         {"op": T("load_metadata_all"), "mutate": {"kind": "body", "body": body, "api": "metadata"}}] + after
                 cases.append({"cluster": spec, "ops": ops, "profile": profiles[(coord + k) % 2],
                               "meta": {"target": "group-call-after-reload/coordinator-%d" % coord, "api": "metadata", "label": "reload-" + label}})
+    # state that must survive a call which FAILED as it should: one broker (so one pooled connection), a reply the client rejects,
+    # then - with nothing in between that could open another connection - calls whose own replies are flawless
+    def one_broker_spec():
+        return {"brokers": brokers(1), "topics": {T1: [1, 1], b"t2": [1]},
+                "logs": {(T1, 0): [("plain", 0, b"k", b"v0")], (T1, 1): [("plain", 0, None, b"s0")], (b"t2", 0): [("plain", 0, None, b"w")]},
+                "committed": {b"g": {(T1, 0): 1, (T1, 1): 0}}, "coordinator": {b"g": 1}}
+    rejected = [("offsets", T("fetch_offsets", [[T1, b"t2"], T("latest")]), {"kind": "set_i32", "at": 4, "value": 2147483647}, "count-max"),
+                ("offsets", T("fetch_offsets", [[T1, b"t2"], T("latest")]), {"kind": "replace", "payload": b"\x00\x00\x00\x07\xff\xff"}, "garbage"),
+                ("metadata", T("load_metadata", [[T1]]), {"kind": "set_i16", "at": 12, "value": 32767}, "string-length"),
+                ("fetch", T("fetch_messages", [[fp(T1, 0, 0), fp(T1, 1, 0)]]), {"kind": "flip", "bit": 8 * 60 + 3}, "bit-flip"),
+                ("produce", T("produce_messages", [1, 1, 0, [pm(T1, 0, b"a", b"b")]]), {"kind": "set_i32", "at": 4, "value": -2147483648}, "count-min")]
+    afters = [("commit", [T("commit_offsets", [b"g", [T("co", [T1, 0, 2])]])]),
+              ("group-fetch", [T("fetch_group_offsets", [b"g", [T("fgo", [T1, 0])]]), T("fetch_group_topic_offset", [b"g", T1])]),
+              ("consumer", [T("consumer_build", [T("from_client"), [T("with_group", [b"g"]), T("with_topic", [T1])]]), T("poll"),
+                            T("consumer_op", [T("commit_consumed")])])]
+    for i, (api, op, mut, label) in enumerate(rejected):
+        for j, (aname, after) in enumerate(afters):
+            spec = one_broker_spec()
+            ops = boot_ops(spec) + [T("set_group_offset_storage", [1]), {"op": op, "mutate": dict(mut, api=api)}] + after
+            cases.append({"cluster": spec, "ops": ops, "profile": profiles[(i + j) % 2],
+                          "meta": {"target": "%s-after-rejected-%s" % (aname, api), "api": api, "label": "rejected-" + label}})
     for n, c in enumerate(cases):
         c["id"] = "C13-%d-%s-%s" % (n, c["meta"]["target"], c["meta"]["label"])
     return cases
@@ -302,7 +325,14 @@ def oracle(case, recs, cl):
             fails.append("C13: %s did not return (watchdog)" % what)
     if res.name == "panic":
         msg = res.args[0]
+        # F16's `get_conn_any().expect("available connection")` is the known finding only where the unchanged code can get there: no
+        # connection was ever opened by this client, or the one picked had idled out and its reconnect was refused during this call. A
+        # pool that lost a connection it once had is a different defect.
+        connected_before = any(ev.name == "connect" and ev.args[1] != 0 for r in recs for ev in r.get("raw_events", []))
+        refused_now = any(ev.name == "connect" and ev.args[1] == 0 for ev in last.get("raw_events", []))
         for cls, pats in KNOWN:
+            if b"available connection" in msg and connected_before and not refused_now:
+                continue
             if any(p in msg for p in pats):
                 fails.append("%s %s panicked: %s" % (cls, what, msg[:80].decode("latin-1")))
                 break
